@@ -10,12 +10,16 @@ import (
 	"flag"
 	"fmt"
 	"os"
+	"os/exec"
 	"runtime/debug"
 	"strconv"
+	"time"
 
 	"verifharness/internal/fw"
 	_ "verifharness/internal/props"
 )
+
+const stallS = 75
 
 func seedFromEnv() int64 {
 	if s := os.Getenv("VERIF_SEED"); s != "" {
@@ -61,6 +65,24 @@ func main() {
 			os.Exit(3)
 		}
 		c := fw.NewCtx(*prop, *tier, *seed, b, *trace)
+		// Child-side stall watchdog: no progress (no case finished) for stallS
+		// seconds ends the child with exit code 4; the supervisor then re-runs the
+		// batch in trace mode, where a non-returning call is pinned. Not used in
+		// trace mode itself (the supervisor watches the trace file there).
+		if *trace == "" {
+			go func() {
+				last, since := c.Progress(), time.Now()
+				for {
+					time.Sleep(3 * time.Second)
+					if p := c.Progress(); p != last {
+						last, since = p, time.Now()
+					} else if time.Since(since) > stallS*time.Second {
+						fmt.Printf("STALL: no case finished for %d s\n", stallS)
+						os.Exit(4)
+					}
+				}
+			}()
+		}
 		func() {
 			defer func() {
 				if e := recover(); e != nil {
@@ -76,7 +98,39 @@ func main() {
 			os.Exit(3)
 		}
 	case "replay":
+		// The replay runs in a child process so that a crash or a hang of the
+		// replayed case is reported as a violation instead of killing the reporter.
 		fs := flag.NewFlagSet("replay", flag.ExitOnError)
+		prop := fs.String("prop", "", "")
+		file := fs.String("file", "", "")
+		fs.Parse(os.Args[2:])
+		exe, _ := os.Executable()
+		cmd := exec.Command(exe, "replay-child", "-prop", *prop, "-file", *file)
+		cmd.Stdout = os.Stdout
+		cmd.Stderr = os.Stderr
+		if err := cmd.Start(); err != nil {
+			fmt.Println(err)
+			os.Exit(2)
+		}
+		done := make(chan error, 1)
+		go func() { done <- cmd.Wait() }()
+		select {
+		case <-done:
+			code := cmd.ProcessState.ExitCode()
+			switch code {
+			case 0, 1, 2:
+				os.Exit(code)
+			default:
+				fmt.Printf("replayed case killed the process (exit %d)\nVIOLATION property=%s replay=%s\n", code, *prop, *file)
+				os.Exit(1)
+			}
+		case <-time.After(150 * time.Second):
+			cmd.Process.Kill()
+			fmt.Printf("replayed case did not return within 150 s\nVIOLATION property=%s replay=%s\n", *prop, *file)
+			os.Exit(1)
+		}
+	case "replay-child":
+		fs := flag.NewFlagSet("replay-child", flag.ExitOnError)
 		prop := fs.String("prop", "", "")
 		file := fs.String("file", "", "")
 		fs.Parse(os.Args[2:])
@@ -97,6 +151,11 @@ func main() {
 		}
 		c := fw.NewCtx(*prop, "replay", seedFromEnv(), fw.Batch{Name: "replay"}, "")
 		c.Replay = true
+		if v.Kind == "data-race" {
+			fmt.Println("a data-race report is replayed by re-running the check (schedules are not deterministic); the recorded report:")
+			fmt.Println(v.Msg)
+			os.Exit(0)
+		}
 		p.Replay(c, v.Payload)
 		if c.NViol() > 0 {
 			fmt.Printf("VIOLATION property=%s replay=%s\n", *prop, *file)
